@@ -291,6 +291,16 @@ def oracle(case, klass, om, oi):
     return None
 
 
+def property_holds(case, klass, om, oi):
+    """the property's own demands on this case: nothing freed twice / no caller memory touched, nothing left allocated, a
+    failed allocation reported as SB_ENOMEM; and the same result codes as the model (those are behaviour, not allocation
+    pattern).  A different but clean allocation pattern is then a broken correspondence, not a failing input."""
+    fm, fi = _fields(om), _fields(oi)
+    if not fm or not fi:
+        return False
+    return fm[0] == fi[0] and oracle(case, klass, om, oi) is None
+
+
 def nontrivial(case, om, oi):
     f = _fields(om)
     if not f or f[1] == "-":
